@@ -1,4 +1,5 @@
 import RtcVerif.Model.C04Json
+import RtcVerif.Model.C04Code
 /-! Line-protocol driver for the C04 models (validation, soft rows, update_bounds, hard bounds). -/
 open Lean RtcVerif RtcVerif.Wire RtcVerif.C04
 
@@ -53,6 +54,16 @@ def handle (j : Json) : Option Json := do
         | none => some (hardCritical o g n)
         | some ex => some (updateBoundsTS ex (hardCritical o g n) true)) none
       pure (ivlsJ (r.getD []))
+  | "minmax" =>
+      -- `_gp_min_max_arrays` through its code-level reference (what Gen/GoalCode.lean is proved equal to)
+      let g ← (getObj j "goal").bind goalOfJson
+      let path ← getBool j "path"
+      let n ← getNat j "n"
+      let gt1 := decide (g.size > 1)
+      let optX (v : Option XVal) : Json := match v with | some x => x.toJson | none => Json.str "none"
+      let cell (c i : Nat) : Json :=
+        Json.arr #[optX (minArrRef path gt1 g.tmin g.tmax c i), optX (maxArrRef path gt1 g.tmin g.tmax c i)]
+      pure (Json.arr ((List.range g.size).map fun c => Json.arr ((List.range n).map (cell c)).toArray).toArray)
   | "empty" =>
       let g ← (getObj j "goal").bind goalOfJson
       pure (Json.bool g.isEmpty)
